@@ -615,6 +615,17 @@ pub fn generate(rng: &mut Rng, n: usize, tier: &str) -> Vec<Value> {
             v.push(json!({"kind": "dec", "bytes": s.as_bytes(), "cuts": cuts}));
         }
     }
+    // 5b. the whole 256-colour palette and every named colour, in both forms
+    let plain = json!({"fg": null, "bg": null, "ul": 0, "flags": 0});
+    for n in 0..256u64 {
+        let p = if n % 2 == 0 { format!("38;5;{};48:5:{}", n, 255 - n) } else { format!("48;5;{};38:5:{};1", n, 255 - n) };
+        v.push(json!({"kind": "write", "f0": plain, "hist": [{"sgr": p}, {"text": [120]}], "cuts": []}));
+    }
+    for base in [30u64, 40, 90, 100] {
+        for k in 0..8 {
+            v.push(json!({"kind": "write", "f0": plain, "hist": [{"sgr": format!("{}", base + k)}, {"text": [121]}], "cuts": []}));
+        }
+    }
     let fixed = v.len();
     // 6. random part
     while v.len() < fixed + n {
